@@ -690,6 +690,10 @@ impl<'a, P: ProcessRun> PubPoint<'a, P> {
         self,
         metrics: &mut RunMetrics,
     ) -> Result<Vec<CaTask<P::PubPoint>>, RunFailed> {
+        #[cfg(feature = "verif-hooks")]
+        crate::verif::point("pubpoint.process", || {
+            self.cert.rpki_manifest().to_string()
+        });
         let mut store = self.run.store.pub_point(self.cert)?;
         if self.run.initial && store.is_new() {
             info!(
